@@ -38,6 +38,20 @@ def cases(seed, tier):
         else:
             P = gdirect.gen(prng, partial_joins=not det, merges=not det,
                             max_tasks=7)
+        if i % 6 == 1 and P.get('children'):
+            # a fail / succeed command on an asynchronous task of the parent
+            # of a tree (a command processed on resume ends the parent
+            # while its sub-workflow is being resumed)
+            plain = [T for T in P['tasks'] if not T.get('workflow')]
+            if plain:
+                T = prng.choice(plain)
+                T['async'] = True
+                T['edges'].append({
+                    'clause': prng.choice(['on-complete', 'on-success']),
+                    'to': prng.choice(['fail', 'fail', 'succeed']),
+                    'guard': None, 'form': 'list'})
+                P['features'] = sorted(set(P['features']) |
+                                       {'command', 'cmd-fail'})
         if i % 5 == 0:
             # retry / wait policies on some tasks
             for T in P['tasks']:
@@ -58,7 +72,8 @@ def cases(seed, tier):
                 T['async'] = prng.random() < 0.7
                 if prng.random() < 0.6:
                     T['concurrency'] = prng.randint(1, 3)
-        det = gdirect.is_deterministic(P)
+        det = gdirect.is_deterministic(P) and \
+            'command' not in P['features']
         outcomes = gdirect.gen_outcomes(prng, P, p_fail=0.2)
         for T in P['tasks']:
             if (T.get('policies') or {}).get('retry') and prng.random() < .5:
@@ -131,6 +146,20 @@ def _resume_phase(state):
     return ph
 
 
+def _resume_leftover_phase(state):
+    """A paused sub-workflow whose ancestors had already ended (a fail
+    command above it) is not reached by the resume of the root: the
+    operator resumes it directly."""
+    def ph(w):
+        paused = sorted((x for x in w.rec.rows['wf'].values()
+                         if x['state'] == 'PAUSED'), key=lambda x: x['id'])
+        if not state.get('root') or not paused:
+            return False
+        w.op_resume(paused[0]['id'])
+        return True
+    return ph
+
+
 def run_case(case):
     res = {'violations': [], 'executions': 0, 'keys': [], 'events': {},
            'monitor_evaluations': {}, 'interleavings': [], 'states': []}
@@ -157,7 +186,9 @@ def run_case(case):
         kind = 'sub' if (P.get('children') and brng.random() < 0.4) \
             else 'root'
         run = ec.execute(case, plan=[{'at': b, 'op': _pause_op(
-            state, kind, brng)}], phases=[_resume_phase(state)])
+            state, kind, brng)}], phases=[_resume_phase(state),
+                                          _resume_leftover_phase(state),
+                                          _resume_leftover_phase(state)])
         res['executions'] += 1
         _collect(res, run)
         if run.inconclusive:
@@ -229,6 +260,7 @@ def run_case(case):
                         'final': run.state_nf,
                         'units': run.unit_log[:40]}
     _early_resume_part(case, base, res, brng, bounds)
+    _split_delivery_part(case, res, brng)
     _pause_command_part(case, base, res, brng)
     res['sample'] = sample
     if case.get('_trace'):
@@ -294,6 +326,100 @@ def _early_resume_part(case, base, res, brng, bounds):
                            b, d, df)})
 
 
+def _split_delivery_part(case, res, brng):
+    """Controlled delivery: the results of asynchronous actions are held
+    by the harness; the workflow is paused when at least two of them are
+    outstanding, a chosen subset is delivered while it is PAUSED, it is
+    resumed, and only then the rest is delivered.  Compared with the same
+    deliveries without the pause."""
+    P = case['program']
+    async_tasks = [T['name'] for Q in gdirect.all_programs(P)
+                   for T in Q['tasks'] if T.get('async')]
+    if len(async_tasks) < 2:
+        return
+    for rep in range(3):
+        sub = set(t for t in async_tasks if brng.random() < 0.5)
+        order = list(async_tasks)
+        brng.shuffle(order)
+
+        def mk(with_pause, sub=sub, order=order):
+            st = {}
+
+            def gate(w, action_ex_id):
+                t = w.async_task_of.get(action_ex_id)
+                return st.get('gate') and t not in sub
+
+            def at_boundary(w):
+                if st.get('paused') is not None or not with_pause:
+                    return
+                if len(w.pending_async) >= 2:
+                    root = w.root()
+                    if root is not None and root['state'] == 'RUNNING':
+                        st['paused'] = True
+                        st['gate'] = True
+                        st['tasks'] = sorted(
+                            (t['name'], t['state'])
+                            for t in w.rec.rows['task'].values())
+                        w.op_pause(root['id'])
+
+            def hook(w):
+                w.on_boundary = at_boundary
+                w.async_gate = gate
+                if not with_pause:
+                    st['gate'] = False
+
+            def resume(w):
+                root = w.root()
+                if not st.get('paused') or root is None or \
+                        root['state'] != 'PAUSED':
+                    st['gate'] = False
+                    return bool(w.pending_async)
+                st['resumed'] = True
+                w.op_resume(root['id'])
+                return True
+
+            def open_gate(w):
+                st['gate'] = False
+                return True
+            c = dict(case, hold_async=True, async_order=order)
+            run = ec.execute(c, setup_hook=hook,
+                             phases=[resume, open_gate, resume, open_gate])
+            return run, st
+        ref, _ = mk(False)
+        run, st = mk(True)
+        res['executions'] += 2
+        _collect(res, run)
+        if run.inconclusive or ref.inconclusive:
+            res['inconclusive'] = 'split delivery: %s' % (
+                run.inconclusive or ref.inconclusive)
+            continue
+        desc = {'delivered_while_paused': sorted(sub), 'order': order,
+                'tasks_at_pause': st.get('tasks')}
+        for v in run.violations:
+            res['violations'].append(dict(v, split_delivery=desc))
+        if not st.get('resumed'):
+            continue
+        res['monitor_evaluations']['split-delivery'] = \
+            res['monitor_evaluations'].get('split-delivery', 0) + 1
+        res['keys'].append([gdirect.shape_hash(P), 'split', sorted(sub),
+                            order])
+        if not case.get('det'):
+            continue
+        if _has_early_failed_join(ref.nf) or _has_early_failed_join(run.nf):
+            df = nf_mod.diff(ref.state_nf, run.state_nf)
+        else:
+            df = nf_mod.diff(ref.nf, run.nf)
+        stuck = any(x.get('mech') == 'stuck' for x in run.violations)
+        if df and not stuck:
+            res['violations'].append({
+                'prop': 'C10', 'monitor': 'same-as-unpaused',
+                'mech': 'result-differs', 'split_delivery': desc,
+                'msg': 'paused with results outstanding, %s delivered while '
+                       'PAUSED, the rest after the resume: differs from the '
+                       'same deliveries without the pause: %s' % (
+                           sorted(sub), df)})
+
+
 def _pause_command_part(case, base, res, brng):
     """The workflow pauses itself: a `pause` command is inserted at a random
     position of a transition list of a task that runs (possibly in front of
@@ -343,6 +469,8 @@ def _pause_command_part(case, base, res, brng):
             continue
         res['keys'].append([gdirect.shape_hash(P2), 'pause-command',
                             T['name'], clause, pos])
+        if 'command' in (P.get('features') or []):
+            continue    # a fail / succeed command races with the branches
         if case['det'] and not _has_early_failed_join(base.nf) and \
                 not _has_early_failed_join(run.nf):
             d = nf_mod.diff(base.nf, run.nf)
